@@ -225,6 +225,7 @@ void __gmpz_submul_ui(mpz_ptr r, mpz_srcptr a, unsigned long b) { r->_mp_size = 
 void __gmpz_ui_pow_ui(mpz_ptr r, unsigned long b, unsigned long e) { r->_mp_size = qsv_nondet_payload(); }
 #endif
 size_t __gmpz_sizeinbase(mpz_srcptr a, int base) { return 1; }
+double __gmpz_get_d(mpz_srcptr a) { return (double) a->_mp_size; }
 void __gmpz_cdiv_q(mpz_ptr q, mpz_srcptr n, mpz_srcptr d) { MODEL_ASSERT(d->_mp_size != 0, "gmp: mpz_cdiv_q by zero"); q->_mp_size = qsv_nondet_payload(); }
 void __gmpz_fdiv_q(mpz_ptr q, mpz_srcptr n, mpz_srcptr d) { MODEL_ASSERT(d->_mp_size != 0, "gmp: mpz_fdiv_q by zero"); q->_mp_size = qsv_nondet_payload(); }
 
